@@ -18,6 +18,10 @@ EXPLANATION = ('Theorems in props/C20.v (deq mirrors __eq__; symmetric; false fo
 HEADER = tie.HEADER.replace('Compute Corr.', 'Compute DEq Corr.')
 
 
+class OffGrid(Exception):
+    pass
+
+
 def view(d, case):
     den = case.get('den') or 2 ** case.get('scale', 0)
     shape = list(d.data.shape)
@@ -27,7 +31,7 @@ def view(d, case):
     mn = Fraction(float(d.params['min_npix'])).limit_denominator(1000)
     if mv.denominator != 1 or md.denominator != 1:
         # bring to a common integer grid: scale everything by the denominators
-        raise ValueError('off grid')
+        raise OffGrid()
     labels = [int(x) for x in d.index_map.ravel().tolist()]
     return {'shape': shape, 'data': data, 'minv': int(mv), 'delta': int(md), 'npix': (mn.numerator, mn.denominator), 'labels': labels}
 
@@ -140,7 +144,14 @@ def explore(ctx):
             c['vals'] = [None if (rng.random() < 0.2 and i > 0) else v for i, v in enumerate(c['vals'])]
         try:
             vs = variants(rng, c)
-            views = [(name, cc_, d, view(d, c)) for name, cc_, d in vs]
+            views = []
+            for name, cc_, d in vs:
+                try:
+                    views.append((name, cc_, d, view(d, c)))
+                except OffGrid:
+                    # a FITS round trip keeps 20 characters of a parameter (C09, K6): such a dendrogram is not
+                    # on the integer grid of the model; it is left out of the pairs (nothing about __eq__ is decided by it)
+                    ctx.count('variant_off_grid_dropped')
         except Exception as e:
             ctx.oracle_failure(c, ['could not build the variants: %r' % (e,)], {})
             continue
